@@ -61,6 +61,13 @@ class RuleGen:
     def item(self):
         rng = self.rng
         u = rng.random()
+        if not self.bound and rng.random() < self.o.get("p_leading_binder", 0.12):
+            # rules starting with let / for: the variable is bound before the first clause
+            x = self.fresh()
+            self.bound.append(x)
+            if rng.random() < 0.6:
+                return ("cond", ("letc", x, rng.choice(DOM)))
+            return ("gen", x, "range3", [])
         if not self.bound or u < self.o.get("p_clause", 0.68):
             return self.clause()
         if u < 0.80:
@@ -102,6 +109,25 @@ def gen_rule(rng, rels, opts, head_rels=None, first=None):
     g = RuleGen(rng, rels, opts)
     nbody = rng.choice(opts.get("body_sizes", [1, 2, 2, 2, 3, 3, 4]))
     body = []
+    if first is None and rng.random() < opts.get("p_binder_join", 0.10):
+        # a binder before the first clause, then two clauses, the second one using the bound variable
+        # (the shape that decides whether a simple join may be reordered)
+        x = g.fresh()
+        g.bound.append(x)
+        body.append(("cond", ("letc", x, rng.choice(DOM))) if rng.random() < 0.6 else ("gen", x, "range3", []))
+        c1 = g.clause()
+        if all(t[0] == "v" and t[1] != x for t in c1[2]) and len({t[1] for t in c1[2]}) == len(c1[2]) and not c1[3]:
+            body.append(c1)
+            name, arity, _ = rng.choice(rels)
+            vs1 = [t[1] for t in c1[2]]
+            args = [("v", x)] + [("v", rng.choice(vs1)) if rng.random() < 0.6 else ("v", g.fresh()) for _ in range(arity - 1)]
+            rng.shuffle(args)
+            if len({a[1] for a in args}) == len(args):
+                g.bound += [a[1] for a in args if a[1] not in g.bound]
+                body.append(("clause", name, args, []))
+                nbody = max(nbody, 3)
+        else:
+            body.append(c1)
     if first is not None:
         body.append(g.clause(first))
     while len(body) < nbody:
@@ -138,6 +164,21 @@ def gen_program(rng, opts=None):
             rules.append(gen_rule(rng, rels, opts, head_rels=[dst], first=src))
         else:
             rules.append(gen_rule(rng, rels, opts))
+    if rng.random() < opts.get("p_multihead_recursive", 0.3) and nrel >= 2:
+        # a recursive rule with several heads, one of which ("log") is read by no rule at all: a write-only head of a
+        # looping SCC — e.g. reach(y), entered(y) <-- reach(x), edge(x, y) — whose tuples get re-derived iterations apart
+        log = ("wlog", rng.choice([1, 2]), "rel")
+        rels.append(log)
+        rec = rng.choice([r for r in rels if r[0] != "wlog"])
+        g = RuleGen(rng, [r for r in rels if r[0] != "wlog"], dict(opts, p_clause_cond=0.0))
+        body = [g.clause(rec), g.clause()]
+        heads = [g.head(rec), g.head(log)]
+        if rng.random() < 0.5:
+            heads.append(g.head(log))
+        rng.shuffle(heads)
+        if rng.random() < 0.6:
+            heads = [h for h in heads if h[0] != "wlog"] + [h for h in heads if h[0] == "wlog"]   # log never the first head
+        rules.append(dict(heads=heads, body=body))
     if rng.random() < 0.2:   # a body-less fact rule
         name, arity, _ = rng.choice(rels)
         rules.append(dict(heads=[(name, [("c", rng.choice(DOM)) for _ in range(arity)])], body=[]))
@@ -150,6 +191,9 @@ def gen_input(rng, rels, style=None):
     style = style or rng.choice(["small", "mixed", "unequal", "dense", "sparse_chain"])
     inp = {}
     for i, (name, arity, _) in enumerate(rels):
+        if style == "some_empty" and rng.random() < 0.45:
+            inp[name] = []
+            continue
         if style == "small":
             n = rng.choice([0, 1, 1, 2, 3])
         elif style == "mixed":
@@ -264,9 +308,13 @@ def gen_strat_program(rng, opts=None):
         for _ in range(rng.choice([1, 2, 2, 3])):
             g = RuleGen(rng, upto, opts)
             body = []
-            n = rng.choice([1, 2, 2, 3])
+            n = rng.choice([1, 2, 2, 3, 3, 4])
             nagg = 0
+            many_clauses = rng.random() < 0.35     # several positive clauses next to the aggregate (any-empty skip path)
             for i in range(n):
+                if many_clauses and i < n - 1:
+                    body.append(g.clause())
+                    continue
                 if lower and (rng.random() < 0.55 or (i == n - 1 and nagg == 0 and L > 0)):
                     body.append(gen_agg_item(rng, g, lower))
                     nagg += 1
@@ -284,5 +332,58 @@ def gen_strat_program(rng, opts=None):
                 else:
                     args.append(("c", rng.choice(DOM)))
             rules.append(dict(heads=[(h[0], args)], body=body))
+    # a rule with several positive clauses next to a negation / count over a lower relation: with that relation
+    # EMPTY the rule must still fire (not() holds, count is 0) — the any-relation-empty shortcut must not apply to it
+    if rng.random() < 0.5 and nlev >= 2:
+        L = rng.randrange(1, nlev)
+        here = [r for r in rels if level[r[0]] == L]
+        lower = [r for r in rels if level[r[0]] < L]
+        g = RuleGen(rng, lower, dict(opts, wild=False, p_clause_cond=0.0))
+        # a chain join over plain variables (derives something on most inputs)
+        body, prev = [], g.fresh()
+        g.bound.append(prev)
+        for _ in range(rng.choice([2, 3, 3])):
+            name, arity, _ = rng.choice(lower)
+            args = [("v", prev)]
+            for _ in range(arity - 1):
+                prev = g.fresh()
+                g.bound.append(prev)
+                args.append(("v", prev))
+            body.append(("clause", name, args, []))
+        # the aggregated / negated relation is one that the chain does not read (so it can be empty on its own)
+        used = {it[1] for it in body}
+        cands = [r for r in lower if r[0] not in used]
+        if not cands:
+            zr = ("l0_z", rng.choice([1, 2]), "rel")
+            rels.append(zr)
+            level[zr[0]] = 0
+            cands = [zr]
+        name, arity, _ = rng.choice(cands)
+        if rng.random() < 0.5:
+            body.append(("neg", name, [("v", rng.choice(g.bound)) if rng.random() < 0.7 else ("w",) for _ in range(arity)]))
+            extra = None
+        else:
+            out = g.fresh()
+            body.append(("agg", out, "count", [], name, [("k", ("v", rng.choice(g.bound))) if rng.random() < 0.6 else ("w",) for _ in range(arity)]))
+            extra = out
+        h = rng.choice(here)
+        args = []
+        for _ in range(h[1]):
+            if extra and rng.random() < 0.4:
+                args.append(("f", "asi32", [extra]))
+            else:
+                args.append(("v", rng.choice(g.bound)))
+        rules.append(dict(heads=[(h[0], args)], body=body))
     rng.shuffle(rules)
     return dict(rels=rels, rules=rules, shape="stratified")
+
+
+def aggregated_rels(p):
+    out = []
+    for r in p["rules"]:
+        for it in r["body"]:
+            if it[0] == "agg" and it[4] not in out:
+                out.append(it[4])
+            elif it[0] == "neg" and it[1] not in out:
+                out.append(it[1])
+    return out
